@@ -245,7 +245,7 @@ func (pm *pathManager) doReloadConf(newPaths map[string]*conf.Path) {
 
 	// process existing paths
 	for pathName, pa := range pm.paths {
-		newPathConf, _, err := conf.FindPathConf(newPaths, pathName)
+		newPathConf, newMatches, err := conf.FindPathConf(newPaths, pathName)
 		// path does not have a config anymore: delete it
 		if err != nil {
 			pm.doClosePath(pa)
@@ -258,7 +258,7 @@ func (pm *pathManager) doReloadConf(newPaths map[string]*conf.Path) {
 			oldPathConf := pm.pathConfs[pa.confName]
 			if pathConfCanBeUpdated(oldPathConf, newPathConf) {
 				pa.confName = newPathConf.Name
-				go pa.reloadConf(newPathConf)
+				go pa.reloadConfAndMatches(newPathConf, newMatches)
 				continue
 			}
 
